@@ -1,5 +1,6 @@
 import ERP.Model.Plugin
 import ERP.FloatOps
+import ERP.Spec.Reader
 /-! Line-protocol driver: runs the `Float` instance of the model. One operation per input line,
 one or two output lines per operation. Strings are hex-encoded UTF-8, numbers are the 16 hex digits
 of the IEEE double. Numbers inside rendered commands appear as U+0001 <bits in decimal> U+0002 and
@@ -252,6 +253,9 @@ def step (d : DState) (line : String) : DState × List String :=
   | ["items", src] =>
     let source := if src == "N" then d.parser.parameters else some (unhexs (src.drop 1).toString)
     (d, ["ok " ++ itemsD (parameterItems source)])
+  | ["specwords", src] =>
+    let ws : List (Char × Option Float) := C19.specRead (unhexs src)
+    (d, ["ok " ++ (if ws.isEmpty then "-" else ",".intercalate (ws.map (fun (c, v) => s!"{c}:{fnum v}")))])
   | ["setgcode", v] =>
     match d.parser.setGcode (unhexs v) with
     | .ok p => ({ d with parser := p }, ["ok " ++ parserD p])
